@@ -12,13 +12,19 @@
     after any history of calls; the modelled WAV decoder satisfies that contract; hence streaming
     an encoded WAV equals loading it from any start position and after any seek sequence;
   * the static loader's packet loop ends at the demuxer's first error and returns the frames so
-    far (end of stream) or the error, as coded.
+    far (end of stream) or the error, as coded;
+  * streaming comes to an end: for every decoder that makes progress (reports the end of its data
+    as an error, not as an empty chunk) `frame_at_index`, `run` and the decoder thread return within
+    a bounded number of `decode` calls; the modelled WAV decoder makes progress on EVERY byte
+    string (truncated, header promising more than the file holds, …), so such a stream ends with
+    `reached_end` or with an error on the handle — it never hangs.
   Symphonia itself (demuxers, codecs, probe) is third-party: modelled for PCM WAV, exercised by
   the `wav` suite (bytes produced by THIS encoder are loaded by the real code), not verified.
 -/
 import KiraModel.Proofs.WavConv
 import KiraModel.Proofs.WavDecoderLemmas
 import KiraModel.Proofs.WavTruncLemmas
+import KiraModel.Proofs.StreamTermination
 
 namespace K
 open Wav Dec
@@ -329,6 +335,85 @@ theorem C18_truncated_file_prefix_partial {α : Type} [Add α] [Sub α] [Mul α]
       = .ok (s.rate, (fileFrames fd s m codes).take ((t - 44) / (s.channels * s.fmt.bytes))) :=
   ⟨loadStatic_encode fd s hs hch m codes hlen hr hL, loadStatic_truncated fd s hs hch m codes hlen hr hL t ht⟩
 
+/-! ## 7. streaming a truncated file ends -/
+
+section StreamingEnds
+variable {α σ : Type} [OfScientific α]
+
+/-- **streaming terminates for every decoder that makes progress.**  Suppose the decoder has a
+    bounded measure of data left (`≤ L`) that every successful `decode` strictly decreases — i.e. it
+    reports the end of its data as an *error*, it cannot answer `Ok` for ever.  Then from EVERY
+    scheduler state (any history, any slice, any position):
+    * `frame_at_index i` returns within `L + 1` calls of `decode` (fuel above `L` is never
+      exhausted): a frame, or an error value that the decoder returned (or the panic of an inverted
+      slice) — not the model's `hang`;
+    * the decoder thread (`DecodeScheduler::start`) ends within `num_frames − position + 1`
+      iterations: with `reached_end`, or with that error pushed to the handle and
+      `encountered_error` set (the sound is then marked Stopped by its next `process`);
+    * the answer of the decode-forward loop does not depend on the fuel (any two fuels above `L`).
+    The seeded change `C18-eof-swallowed` (`UnexpectedEof ↦ Ok(vec![])`) breaks exactly the
+    hypothesis `decode_lt` — see `C18_eof_swallowed_spins`. -/
+theorem C18_streaming_truncated_terminates (D : Decoder σ α) (left : σ → Nat) (L : Nat)
+    (P : Progress D left L) (cfg : Cfg) (fuel : Nat) (hfuel : L < fuel) (st : Sched σ α) :
+    (∀ i, (∃ r, frameAtIndex D cfg fuel st i = .ok r) ∨
+      (∃ e, frameAtIndex D cfg fuel st i = .error e ∧ ((e = .panic ∧ cfg.Inverted) ∨ DecErr D e))) ∧
+    (∀ steps acc, cfg.numFrames - st.position < steps →
+      (∃ r, runThread D cfg fuel steps st acc = .ok r ∧ ∀ e, r.error = some e → DecErr D e) ∨
+      (∃ e, runThread D cfg fuel steps st acc = .error e ∧ ((e = .panic ∧ cfg.Inverted) ∨ DecErr D e))) ∧
+    (∀ index s cur f₁ f₂, L < f₁ → L < f₂ →
+      decodeUntil D index f₁ s cur = decodeUntil D index f₂ s cur) :=
+  ⟨fun i => frameAtIndex_terminates D left L P cfg fuel hfuel st i,
+   fun steps acc h => runThread_terminates D left L P cfg fuel hfuel steps st acc h,
+   fun index s cur f₁ f₂ h₁ h₂ => decodeUntil_fuel D left L P index L s cur f₁ f₂ (P.bounded s) h₁ h₂⟩
+
+omit [OfScientific α] in
+/-- **the hypothesis is necessary**: a decoder that answers the end of its data with an empty
+    chunk and an unchanged state (`decode s = Ok([])`) has no progress measure, and
+    `frame_at_index`'s decode-forward loop never returns from that state, whatever the fuel
+    (the frame it waits for is not in an empty chunk): the decoder thread spins, no error reaches
+    the handle, the sound stays Playing. -/
+theorem C18_eof_swallowed_spins (D : Decoder σ α) (s : σ) (h : D.decode s = .ok ([], s)) :
+    (∀ left L, ¬ Progress D left L) ∧
+    (∀ index fuel cur, decodeUntil D index fuel s cur = .error .hang) :=
+  ⟨fun left L => no_progress_of_empty_ok D s h left L, fun index fuel cur => decodeUntil_spins D s h index fuel cur⟩
+
+end StreamingEnds
+
+section StreamingEndsWav
+variable {α : Type} [Add α] [Sub α] [Mul α] [Div α] [Neg α] [LT α] [LE α]
+  [DecidableLT α] [DecidableLE α] [OfScientific α] [KOps α]
+
+/-- **streaming ANY RIFF/WAVE byte string ends** (no hypothesis about the file): whatever the
+    `fmt ` chunk and the data-chunk length field say and however many bytes really follow
+    (a file cut anywhere, a header that promises more frames than are present, …), the modelled
+    Symphonia WAV decoder makes progress, so from every scheduler state with a non-inverted slice
+    the decoder thread ends within `num_frames − position + 1` iterations, each needing at most
+    `dataLen + 1` packets: either `reached_end`, or a `SymphoniaError` (end of stream /
+    seek out of range) or `UnsupportedChannelConfiguration` on the handle and the sound Stopped. -/
+theorem C18_streaming_any_wav_terminates (fd : FloatDec α) (fc : FmtChunk) (r : Reader) (cfg : Cfg)
+    (hslice : ¬ cfg.Inverted) (st : Sched Nat α) (fuel : Nat) (hfuel : r.dataLen < fuel)
+    (steps : Nat) (hsteps : cfg.numFrames - st.position < steps) (acc : List (Frame α × Nat)) :
+    ∃ res, runThread (wavDecoder fd fc r) cfg fuel steps st acc = .ok res ∧
+      (res.error = none ∨ res.error = some .sym ∨ res.error = some .chan) := by
+  have P := wavDecoder_progress fd fc r
+  rcases runThread_terminates _ _ _ P cfg fuel hfuel steps st acc hsteps with ⟨res, h, he⟩ | ⟨e, h, hd⟩
+  · refine ⟨res, h, ?_⟩
+    cases hr : res.error with
+    | none => exact .inl rfl
+    | some e =>
+      rcases wavDecoder_errors fd fc r e (he e hr) with rfl | rfl
+      · exact .inr (.inl rfl)
+      · exact .inr (.inr rfl)
+  · exfalso
+    -- a `runThread` error is `hang` or `panic`; neither is a value the WAV decoder returns,
+    -- and the slice is not inverted
+    have hhp : e = .hang ∨ e = .panic := runThread_error_kind _ cfg fuel steps st acc e h
+    rcases hd with ⟨hp, hi⟩ | hd
+    · exact hslice hi
+    · rcases wavDecoder_errors fd fc r e hd with rfl | rfl <;> rcases hhp with h' | h' <;> cases h'
+
+end StreamingEndsWav
+
 /-! ## non-vacuity -/
 
 /-- the hypotheses of the round trip / load theorems are satisfiable (CD-quality stereo) -/
@@ -356,5 +441,13 @@ example (fd : FloatDec ℝ) : convSample fd .s16 0x8000 = -1 ∧ convSample fd .
     `C18_streaming_equals_loading` is not vacuous; here: a demuxer run with two packets then EOF -/
 example : Run (fun (n : Nat) => if n < 2 then .ok (n, n + 1) else .error true) 0 [0, 1] true :=
   .more rfl (.more rfl (.stop rfl))
+
+/-- the progress hypothesis of `C18_streaming_truncated_terminates` is satisfiable: the WAV decoder over any
+    reader has it; and the premise of `C18_eof_swallowed_spins` is satisfiable: a decoder that
+    answers `Ok([])` for ever -/
+example (fd : FloatDec ℝ) (fc : FmtChunk) (r : Reader) :
+    ∃ left L, Progress (wavDecoder fd fc r) left L := ⟨_, _, wavDecoder_progress fd fc r⟩
+example : ∃ (D : Decoder Unit ℝ) (s : Unit), D.decode s = .ok ([], s) :=
+  ⟨⟨fun s => .ok ([], s), fun s i => .ok (i, s)⟩, (), rfl⟩
 
 end K
